@@ -3,7 +3,7 @@ C11: the statements (`ViewOk`, `Mono`, `Quiescent`), the hypothesis of the parti
 (`CleanRun`), the run lemmas that lift the per-action invariants to whole schedules, and the
 boolean checkers used by the counterexample theorems.
 -/
-import CV.Proofs.StreamMono
+import CV.Proofs.StreamResume
 import CV.Proofs.StreamGuard
 import CV.Proofs.StreamFaithReg
 namespace CV.Stream
@@ -21,12 +21,12 @@ def Mono (y : Sys) : Prop := ∀ c ∈ y.clients, c.mono = true
 /-- the hypothesis of the partial theorems, one decidable-in-context condition per action:
     * commits are well-indexed (Raft) and their events are faithful (see `Faithful`; it fails
       exactly for the two catalog_events.go shapes refuted below),
-    * a subscription starts while nothing is queued for publication, does not take the
-      resume path and splices at the live tail,
+    * a subscription starts while nothing is queued for publication (it may be resumed, served
+      from the snapshot cache, or take a fresh snapshot that splices at the live tail),
     * a restore happens while nothing is queued and no subscription is attached. -/
 def CleanAct (y : Sys) : Act → Prop
   | .commit idx w => y.lastIdx < idx ∧ Faithful y.cat idx w
-  | .subscribe id => CleanSub y id
+  | .subscribe id => CleanSubR y id
   | .restore c => WF c ∧ IdxBound c y.lastIdx ∧ y.queue = [] ∧ ∀ d ∈ y.clients, attached d = false
   | _ => True
 
@@ -34,38 +34,37 @@ def CleanRun (y : Sys) : List Act → Prop
   | [] => True
   | a :: r => CleanAct y a ∧ CleanRun (step y a) r
 
-theorem Inv.step {y : Sys} (h : Inv y) (a : Act) (hc : CleanAct y a) : Inv (step y a) := by
-  cases a with
-  | client id k t r => exact h.addClient id k t r
-  | commit idx w => exact h.commit idx w (by have := hc.1; omega) hc.2
-  | publishOne => exact h.publishOne
-  | subscribe id => exact h.subscribe id hc
-  | next id => exact h.next id
-  | unsub id => exact h.unsub id
-  | expire => exact h.expire
-  | restore c => exact h.restore c hc.1 hc.2.2.1 hc.2.2.2
+/-- the three invariants of clean schedules, stepped together -/
+structure AllInv (y : Sys) : Prop where
+  inv  : Inv y
+  minv : MInv y
+  rinv : ∃ pc, RInv y pc
 
-theorem Inv.run {y : Sys} (h : Inv y) (acts : List Act) (hc : CleanRun y acts) : Inv (run y acts) := by
+theorem AllInv.init (ttl : Bool) : AllInv (Sys.init ttl) :=
+  ⟨Inv.init ttl, MInv.init ttl, ⟨Cat.empty, RInv.init ttl⟩⟩
+
+theorem AllInv.step {y : Sys} (h : AllInv y) (a : Act) (hc : CleanAct y a) : AllInv (step y a) := by
+  obtain ⟨hi, hm, pc, hr⟩ := h
+  cases a with
+  | client id k t r => exact ⟨hi.addClient id k t r, hm.addClient id k t r, pc, hr.addClient id k t r⟩
+  | commit idx w =>
+    exact ⟨hi.commit idx w (by have := hc.1; omega) hc.2, hm.commit idx w hc.1, pc, hr.commit idx w hc.1 hc.2⟩
+  | publishOne => exact ⟨hi.publishOne, hm.publishOne hi.cbuf, hr.publishOne⟩
+  | subscribe id => exact ⟨hi.subscribeR hr id hc, hm.subscribeR id hc, pc, hr.subscribeR hi hm id hc⟩
+  | next id => exact ⟨hi.next id, hm.next id, pc, hr.next hi id⟩
+  | unsub id => exact ⟨hi.unsub id, hm.unsub id, pc, hr.unsub hi id⟩
+  | expire => exact ⟨hi.expire, hm.expire, pc, hr.expire⟩
+  | restore c =>
+    exact ⟨hi.restore c hc.1 hc.2.2.1 hc.2.2.2, hm.restore c hc.2.1 hc.2.2.2, c, hr.restore c hc.2.2.1 hc.2.2.2⟩
+
+theorem AllInv.run {y : Sys} (h : AllInv y) (acts : List Act) (hc : CleanRun y acts) : AllInv (run y acts) := by
   induction acts generalizing y with
   | nil => exact h
   | cons a r ih => exact ih (h.step a hc.1) hc.2
 
-
-theorem MInv.step {y : Sys} (h : MInv y) (hi : Inv y) (a : Act) (hc : CleanAct y a) : MInv (step y a) := by
-  cases a with
-  | client id k t r => exact h.addClient id k t r
-  | commit idx w => exact h.commit idx w hc.1
-  | publishOne => exact h.publishOne hi.cbuf
-  | subscribe id => exact h.subscribe id hc
-  | next id => exact h.next id
-  | unsub id => exact h.unsub id
-  | expire => exact h.expire
-  | restore c => exact h.restore c hc.2.1 hc.2.2.2
-
-theorem MInv.run {y : Sys} (h : MInv y) (hi : Inv y) (acts : List Act) (hc : CleanRun y acts) : MInv (run y acts) := by
-  induction acts generalizing y with
-  | nil => exact h
-  | cons a r ih => exact ih (h.step hi a hc.1) (hi.step a hc.1) hc.2
+instance (y : Sys) (id : Nat) : Decidable (CleanSubR y id) := by
+  unfold CleanSubR
+  cases getClient y id <;> exact inferInstance
 
 instance (y : Sys) (id : Nat) : Decidable (CleanSub y id) := by
   unfold CleanSub
@@ -123,9 +122,9 @@ def CleanRunS (y : Sys) : List Act → Prop
   | [] => True
   | a :: r => CleanActS y a ∧ CleanRunS (step y a) r
 
-theorem CleanActS.clean {y : Sys} (h : Inv y) {a : Act} (hc : CleanActS y a) : CleanAct y a := by
+theorem CleanActS.clean {y : Sys} (h : AllInv y) {a : Act} (hc : CleanActS y a) : CleanAct y a := by
   cases a with
-  | commit idx w => exact ⟨hc.1, faithful_of_cleanWrite h.wf idx w hc.2⟩
+  | commit idx w => exact ⟨hc.1, faithful_of_cleanWrite h.inv.wf idx w hc.2⟩
   | client id k t r => exact hc
   | publishOne => exact hc
   | subscribe id => exact hc
@@ -134,7 +133,7 @@ theorem CleanActS.clean {y : Sys} (h : Inv y) {a : Act} (hc : CleanActS y a) : C
   | expire => exact hc
   | restore c => exact hc
 
-theorem CleanRunS.clean {y : Sys} (h : Inv y) {acts : List Act} (hc : CleanRunS y acts) : CleanRun y acts := by
+theorem CleanRunS.clean {y : Sys} (h : AllInv y) {acts : List Act} (hc : CleanRunS y acts) : CleanRun y acts := by
   induction acts generalizing y with
   | nil => trivial
   | cons a r ih =>
